@@ -1,4 +1,5 @@
 import JSL.Inv.CompileLemmas
+import JSL.Inv.Placement
 
 /-!
 # C16 — the compiled instance is exactly the instance the specification describes
@@ -135,5 +136,33 @@ example : parseMatrix "a|b\nb|3 0\na|0 7\n".toList =
 
 example : parseJobMatrix "(m0,t)|(m1,t)\nj0|(0,3) (1,12)\nj1|(1,2)(0,4)\n".toList = [[(0, 3), (1, 12)], [(1, 2), (0, 4)]] := by
   decide
+
+/-! ## outages (`_map_spec_dict_to_outage`; tied by the `CO` lines) -/
+
+open Compile in
+/-- **a component carries exactly the entries of the `outages:` section addressed to it**: an entry
+is among a component's outages iff its component name is one of the names that address it -/
+theorem c16_component_carries_its_outage_entries {α : Type} (names : List Text) (entries : List (Text × α)) (x : α) :
+    x ∈ outagesFor names entries ↔ ∃ n, (n, x) ∈ entries ∧ n ∈ names :=
+  mem_outagesFor
+
+open Compile in
+/-- ... all of them (as many as there are matching entries, so several entries for one component
+are all active), in the order of the document -/
+theorem c16_outage_entries_all_kept_in_order {α : Type} (names : List Text) (entries : List (Text × α)) :
+    (outagesFor names entries).length = entries.countP (fun e => names.contains e.1) ∧
+    (outagesFor names entries).Sublist (entries.map (·.2)) ∧
+    ∀ e₁ e₂ : List (Text × α), outagesFor names (e₁ ++ e₂) = outagesFor names e₁ ++ outagesFor names e₂ :=
+  ⟨outagesFor_length names entries, outagesFor_sublist names entries, outagesFor_append names⟩
+
+open Compile in
+/-- a machine is addressed by `m`, `machine`, … and by its own id, not by another machine's id -/
+theorem c16_machine_addressed_by_own_id (id other : Text) (h : other ∉ machineOutageNames id) :
+    other ≠ id ∧ other ≠ "m".toList := by
+  constructor <;> rintro rfl <;> simp [machineOutageNames] at h
+
+/-- non-vacuity: two entries for `m` and `m-0`, one for `m-1`: machine `m-0` carries the first two -/
+example : Compile.outagesFor (Compile.machineOutageNames "m-0".toList)
+    [("m".toList, 1), ("m-1".toList, 2), ("m-0".toList, 3)] = [1, 3] := by decide
 
 end JSL
